@@ -59,6 +59,18 @@ CombineGroup(entries, vals) ==     \* point shares -> group element
       S(i) == IF i = 0 THEN GId ELSE GAdd(S(i - 1), GScale(PRat(Lambda(xs, i)), vals[i]))
   IN S(Len(entries))
 
+\* ---- subset shapes for (t,n) beyond the exhaustive grid (identifiers up to 255) ----
+Shapes == {"first_t", "last_t", "first_t_minus_1", "last_t_minus_1", "first_t_plus_1", "all_n", "evens", "two"}
+ShapeIds(sh, t, n) ==
+  CASE sh = "first_t"         -> [i \in 1..t |-> i]
+    [] sh = "last_t"          -> [i \in 1..t |-> n - t + i]
+    [] sh = "first_t_minus_1" -> [i \in 1..(t - 1) |-> i]
+    [] sh = "last_t_minus_1"  -> [i \in 1..(t - 1) |-> n - t + 1 + i]
+    [] sh = "first_t_plus_1"  -> [i \in 1..(IF t + 1 <= n THEN t + 1 ELSE t) |-> i]
+    [] sh = "all_n"           -> [i \in 1..n |-> n + 1 - i]
+    [] sh = "evens"           -> [i \in 1..(n \div 2) |-> 2 * i]
+    [] sh = "two"             -> <<n, 1>>
+
 \* ---- ideal layer: provenance only ----
 \* the entries recombine to the whole-key value iff they are untouched, distinct, non-zero and
 \* at least t of them
